@@ -308,7 +308,7 @@ func C01(r *eng.Run) {
 	if r.Thorough() {
 		nlead = 3
 	}
-	leads := append(LeadSweep(nlead), WordShapes()...)
+	leads := append(append(LeadSweep(nlead), WordShapes()...), LimitShapes()...)
 	sm := SmallShapes()
 	r.Bounds["lead_prefix_digits"] = nlead
 	r.Par(len(leads), func(w *eng.W, i int) {
@@ -352,6 +352,37 @@ func C01(r *eng.Run) {
 		cl.flush(w)
 	})
 	r.Phase("A2 decision table", t0, nil)
+
+	// A2c: the swallowed operand in every cohort encoding: y = K*10^z (K with non-zero low and middle digits) placed so
+	// that t = 1..40 of its digits fall below x's last digit; alignment shifts the raw coefficient block by block, so
+	// trailing zeros inside the coefficient change which block drops which digit
+	t0 = time.Now()
+	var cohK []*big.Int
+	for _, s := range []string{"70000003", "10000001", "12345678", "99999999", "5", "15", "25", "50000005", "1000000000000001", "30000000000000007"} {
+		cohK = append(cohK, bi(s))
+	}
+	xs := []*big.Int{big.NewInt(1), bi("9999999999999999999999999999999999"), bi(gen1[:34]), bi("1000000000000000000000000000000000"), bi("12980742146337069071326240823050239"), big.NewInt(7)}
+	r.Par(len(cohK), func(w *eng.W, i int) {
+		cl := &rcells{}
+		K := cohK[i]
+		L := ref.NumDigits(K)
+		for z := 0; z+L <= 35; z++ {
+			c := new(big.Int).Mul(K, ref.Pow10(z))
+			if c.Cmp(ref.Cmax) > 0 {
+				break
+			}
+			for _, x := range xs {
+				for t := 1; t <= 40; t++ {
+					// value of y = K * 10^(-t - (L-1))... top digit of K sits t places below x's unit digit
+					qy := -t - (L - 1) - z
+					addPair(w, cl, x, 0, c, qy)
+					addPair(w, cl, c, qy, x, 0)
+				}
+			}
+		}
+		cl.flush(w)
+	})
+	r.Phase("A2c cohort encodings of the swallowed operand", t0, nil)
 
 	// A3: zeros, cancellation over cohorts
 	t0 = time.Now()
